@@ -134,7 +134,7 @@ func stylesOf(run *ev.Run, j job, b bounds) []idl.Style {
 	}
 	rng := run.Rand(fmt.Sprintf("c10-%s-style-%d", j.Pool, j.I))
 	for len(out) < b.renderings {
-		out = append(out, idl.RandomStyle(rng))
+		out = append(out, randomStyle(rng))
 	}
 	return out
 }
@@ -277,7 +277,7 @@ func runModelJob(run *ev.Run, j job, b bounds, base string) *jobResult {
 		if k == 0 && o.Res != nil && o.Res.ok() {
 			rst := idl.DefaultStyle()
 			if j.I%2 == 1 {
-				rst = idl.RandomStyle(run.Rand(fmt.Sprintf("c10-%s-rtstyle-%d", j.Pool, j.I)))
+				rst = randomStyle(run.Rand(fmt.Sprintf("c10-%s-rtstyle-%d", j.Pool, j.I)))
 			}
 			r.Failures = append(r.Failures, e.roundTrip(p, o.Res, rst, label)...)
 			r.RoundTrips++
